@@ -212,6 +212,8 @@ pub struct Exp {
     pub piece: usize,
     pub must_ws_before: bool,
     pub no_ws_before: bool,
+    /// the input has a white-space piece between the previous token and this one
+    pub had_ws_before: bool,
     pub is_class_rewrite: bool,
     pub is_sign: bool,
 }
@@ -257,6 +259,7 @@ pub struct ExpectOpts<'a> {
 pub fn expected(sheet: &Sheet, toks: &[T], o: &ExpectOpts) -> Vec<Exp> {
     let mut out: Vec<Exp> = vec![];
     let mut pending_must = false;
+    let mut pending_ws = false;
     let mut prev_micro: Option<u32> = None;
     for (i, (p, t)) in sheet.pieces.iter().zip(toks.iter()).enumerate() {
         match &p.role {
@@ -264,11 +267,14 @@ pub fn expected(sheet: &Sheet, toks: &[T], o: &ExpectOpts) -> Vec<Exp> {
                 if *must {
                     pending_must = true;
                 }
+                pending_ws = true;
                 continue;
             }
             Role::Comment => continue,
             _ => {}
         }
+        let had_ws = pending_ws;
+        pending_ws = false;
         let cur_micro = p.micro.map(|m| m.0);
         let no_ws = cur_micro.is_some() && cur_micro == prev_micro;
         prev_micro = cur_micro;
@@ -277,7 +283,7 @@ pub fn expected(sheet: &Sheet, toks: &[T], o: &ExpectOpts) -> Vec<Exp> {
         match &p.role {
             Role::Class => {
                 if let Some(sign) = o.class_prefix_sign {
-                    out.push(Exp { t: T::Comment(sign.to_string()), piece: i, must_ws_before: must, no_ws_before: false, is_class_rewrite: false, is_sign: true });
+                    out.push(Exp { t: T::Comment(sign.to_string()), piece: i, must_ws_before: must, no_ws_before: false, had_ws_before: had_ws, is_class_rewrite: false, is_sign: true });
                     must = false;
                 }
                 let name = match t {
@@ -288,17 +294,17 @@ pub fn expected(sheet: &Sheet, toks: &[T], o: &ExpectOpts) -> Vec<Exp> {
                     Some(pf) => T::Ident(format!("{}--{}", pf, name)),
                     None => T::Ident(name),
                 };
-                out.push(Exp { t: t2, piece: i, must_ws_before: must, no_ws_before: false, is_class_rewrite: o.class_prefix.is_some(), is_sign: false });
+                out.push(Exp { t: t2, piece: i, must_ws_before: must, no_ws_before: false, had_ws_before: had_ws, is_class_rewrite: o.class_prefix.is_some(), is_sign: false });
             }
             Role::Rpx => {
                 let t2 = match t {
                     T::Dim { v, sign, .. } => T::Dim { v: rpx_expected(*v, o.rpx_ratio), int: None, sign: *sign, unit: "vw".into() },
                     _ => unreachable!("rpx piece is not a dimension"),
                 };
-                out.push(Exp { t: t2, piece: i, must_ws_before: must, no_ws_before: no_ws, is_class_rewrite: false, is_sign: false });
+                out.push(Exp { t: t2, piece: i, must_ws_before: must, no_ws_before: no_ws, had_ws_before: had_ws, is_class_rewrite: false, is_sign: false });
             }
             _ => {
-                out.push(Exp { t: t.clone(), piece: i, must_ws_before: must, no_ws_before: no_ws, is_class_rewrite: false, is_sign: false });
+                out.push(Exp { t: t.clone(), piece: i, must_ws_before: must, no_ws_before: no_ws, had_ws_before: had_ws, is_class_rewrite: false, is_sign: false });
             }
         }
     }
